@@ -36,6 +36,7 @@ Inductive cmd : Type :=
 | CLogClear
 | CEdit (loc : option str) (meta : N) (msg : str)            (* stg edit -m <msg> [<patch>] *)
 | CRebase (target : gtarget)                                  (* stg rebase <committish> *)
+| CSquash (ranges : list str) (nm : str) (meta : N) (msg : str) (* stg squash -m <msg> -n <nm> <patches> *)
 | CInspect                                                    (* series/id/top/... : open only *)
 (* plain git, outside stg *)
 | GEdit (cell : nat) (v : N)                                  (* modify the work tree + index *)
@@ -1118,6 +1119,112 @@ Definition run_rebase (w : world) (tgt : gtarget) : world * exitc :=
       end
   end.
 
+(* ---------------------------------------------------------------- squash *)
+
+(* try_squash: starting from the tree of the first patch, apply the change of every further
+   patch (git apply --3way in a temporary index); on success the squashed commit sits on the
+   first patch's parent and carries the identity that was asked for *)
+Fixpoint squash_tree (objs : store) (t : txn) (rest : list name) (acc : tree) : option tree :=
+  match rest with
+  | [] => Some acc
+  | p :: rest' =>
+      match t_patch t p with
+      | None => None
+      | Some pc =>
+          match first_parent objs pc with
+          | None => None
+          | Some par =>
+              let pt := tree_of objs par in
+              let ct := tree_of objs pc in
+              if tree_eqb pt ct then squash_tree objs t rest' acc
+              else match apply3way (t_wt t) pt ct acc with
+                   | Some acc' => squash_tree objs t rest' acc'
+                   | None => None
+                   end
+          end
+      end
+  end.
+
+Definition try_squash (t : txn) (ps : list name) (meta : N) (msg : str) : option (txn * oid) :=
+  match ps with
+  | [] => None
+  | b :: rest =>
+      match t_patch t b with
+      | None => None
+      | Some bc =>
+          match squash_tree (t_objs t) t rest (tree_of (t_objs t) bc) with
+          | None => None
+          | Some tr =>
+              let '(objs', o) := put (t_objs t) (plain (parents_of (t_objs t) bc) tr meta msg) in
+              Some (set_objs t objs', o)
+          end
+      end
+  end.
+
+(* the tail shared by both paths of squash(): the squashed patch becomes the first unapplied
+   patch and is pushed back together with whatever had to be popped *)
+Definition squash_finish (newn : name) (o : oid) (to_push : list name) (should_push : bool) (t : txn) : tres :=
+  tbind (new_unapplied newn o 0 t)
+        (push_patches (if should_push then newn :: to_push else to_push) false).
+
+Definition squash_closure (ps : list name) (newn : name) (meta : N) (msg : str) (should_push : bool)
+           (t : txn) : tres :=
+  match try_squash t ps meta msg with
+  | Some (t1, o) =>
+      let '(t2, to_push) := delete_patches (fun n => mem n ps) t1 in
+      squash_finish newn o to_push should_push t2
+  | None =>
+      let '(t1, to_push) := pop_patches (fun n => mem n ps) t in
+      tbind (push_patches ps false t1)
+            (fun t2 =>
+               match try_squash t2 ps meta msg with
+               | Some (t3, o) =>
+                   let '(t4, extra) := delete_patches (fun n => mem n ps) t3 in
+                   match extra with
+                   | _ :: _ => TPanic                        (* assert!(popped_extra.is_empty()) *)
+                   | [] => squash_finish newn o to_push should_push t4
+                   end
+               | None => TErr t2                             (* Error::CausedConflicts *)
+               end)
+  end.
+
+(* did the closure end in "conflicts while squashing" (exit status 3 without a recorded state) *)
+Definition squash_conflicts (ps : list name) (meta : N) (msg : str) (t : txn) : bool :=
+  match try_squash t ps meta msg with
+  | Some _ => false
+  | None =>
+      let '(t1, _) := pop_patches (fun n => mem n ps) t in
+      match push_patches ps false t1 with
+      | TOk t2 => match try_squash t2 ps meta msg with Some _ => false | None => true end
+      | _ => false
+      end
+  end.
+
+(* stg squash -m <msg> -n <name> <patches> *)
+Definition run_squash (w : world) (ranges : list str) (nm : str) (meta : N) (msg : str) : world * exitc :=
+  match parse_ranges ranges, from_str nm with
+  | None, _ | _, None => (w, X1)
+  | Some prs, Some newn =>
+      match open_stack PAllow w with
+      | None => err2 w
+      | Some op =>
+          let w1 := op_world op in
+          let s := op_state op in
+          if w_unmerged w1 then err2 w1
+          else if negb (head_top_ok op) then err2 w1
+          else
+            rres_bind w1 (resolve_names (view_of s) RCAll prs) (fun ps =>
+              if negb (mem newn ps) && (match stack_collides s newn with Some _ => true | None => false end)
+              then err2 w1
+              else if Nat.ltb (length ps) 2 then err2 w1
+              else
+                let should_push := existsb (fun n => mem n ps) (s_applied s) in
+                let o := opts CAllow true false true true false in
+                let '(w', x) := transact op o (squash_closure ps newn meta msg should_push) MOp in
+                if op_initialized op && squash_conflicts ps meta msg (begin_txn op o) then (w', X3) else (w', x))
+      end
+  end.
+
 (* ---------------------------------------------------------------- dispatcher *)
 
 Section Step.
@@ -1149,6 +1256,7 @@ Section Step.
     | CLogClear => run_log_clear w
     | CEdit l m msg => run_edit w l m msg
     | CRebase t => run_rebase w t
+    | CSquash r n m msg => run_squash w r n m msg
     | CInspect => match open_stack PAllow w with
                   | Some op => (op_world op, X0) | None => err2 w end
     | GEdit _ _ | GCommit _ _ | GAmend _ _ | GResetHard _ | GMerge _ => run_git w c
